@@ -26,7 +26,11 @@ TRUSTED = ['Python float / str on live values is the reference for values and la
            'text without exponent']
 ASSUMPTIONS = ['processor failures are Exception subclasses (a plugin raising a BaseException subclass is outside '
                'the statement)', 'metric expression values are ints, short decimals, bools, text, None or failing',
-               '__str__ of host values does not raise; __float__ may raise any Exception (then the value is 1)']
+               '__float__ may raise any Exception (then the value is 1); a label value whose __str__ raises is compared '
+               'with the model only (the statement does not say what the label then is)',
+               'model float printing is CPython\'s for decimals of at most 15 significant digits and |exponent| <= 300; '
+               'values beyond (2**53+1, 17-digit text, 1e400) are generated in the `boundary` stream and judged by the '
+               'oracle only']
 
 TYPES = ['COUNTER', 'GAUGE', 'HISTOGRAM', 'SUMMARY', 'COUNTER', 'GAUGE', 'counter', 'Gauge', 'hIsToGrAm', 'summary']
 BAD_TYPES = ['TIMER', '', 'METER', 'clear', 'name', 'COUNTERS', ' counter', 'UNSPECIFIED']
@@ -35,14 +39,20 @@ LOCALS = [['n', 7], ['neg', -3], ['z', 0], ['f', 2.5], ['small', 0.0001], ['t', 
           ['nothing', None], ['lst', [1, 2]], ['o', {'obj': {'name': 'bob', 'w': 1.5}}], ['big', 123456789012],
           ['negz', '-0'], ['plus', '+4'], ['huge', 10 ** 400], ['nhuge', -(10 ** 400)],
           ['fl_raise', {'floaty': 'raise'}], ['fl_over', {'floaty': 'overflow'}], ['fl_text', {'floaty': 'text'}],
-          ['fl_ok', {'floaty': 2.5}]]
+          ['fl_ok', {'floaty': 2.5}], ['expo', '1e5'], ['expo2', ' 2.5E-3 '], ['tiny', '0.00001'], ['sci', '12e20'],
+          ['infs', '-Inf'], ['nans', 'nan'], ['e16', 10 ** 16], ['e22', 3 * 10 ** 22], ['nostr', {'badstr': 1}],
+          # beyond the modelled alphabet (more than 15 significant digits, exponents past the double range)
+          ['p53', 2 ** 53 + 1], ['d17', '12345678901234567'], ['over', '1e400'], ['under', '1e-400'],
+          ['edge', 2 ** 1024 - 2 ** 970], ['edge1', 2 ** 1024 - 2 ** 970 - 1], ['d16', '0.1234567890123456']]
 GLOBALS = {'GNUM': 42, 'GSTR': 'glob', 'GF': 0.125, 'uuid': 'host-uuid'}
 VALUE_EXPRS = [None, None, '', 'n', 'neg', 'z', 'f', 'small', 't', 'fl', 's', 'num', 'dec', 'und', 'dot', 'badnum', 'e',
                'nothing', 'lst', 'o.w', 'big', 'negz', 'plus', 'n + 1', 'n * f', 'len(lst)', 'GNUM', 'GF', 'GNUM + n',
                'nope', 'n / 0', "boom('HostInterrupt', '5')", 'time_ns()', 'FrameType', 'twice(n)', 'o', 'n > 3',
                "boom('KeyError', 1)", 'uuid', 'huge', 'nhuge', 'huge * 2', 'fl_raise', 'fl_over', 'fl_text', 'fl_ok',
-               'float(huge)', '10 ** 400', 'huge', 'fl_raise']
-LABEL_EXPRS = ['n', 's', 'f', 'o.name', 'GSTR', 'uuid', 'nope', 'n / 0', 'lst', 'nothing', 't', "boom('SystemExit', 2)",
+               'float(huge)', '10 ** 400', 'huge', 'fl_raise', 'expo', 'expo2', 'tiny', 'sci', 'infs', 'nans', 'e16', 'e22',
+               'edge', 'nostr']
+BOUNDARY_EXPRS = ['p53', 'd17', 'over', 'under', 'edge1', 'd16', 'p53 * 3', 'e22 + 1']
+LABEL_EXPRS = ['nostr', 'n', 's', 'f', 'o.name', 'GSTR', 'uuid', 'nope', 'n / 0', 'lst', 'nothing', 't', "boom('SystemExit', 2)",
                'FrameType', 'e', "d['x']" if False else 'len(s)']
 STATICS = ['x', 'static value', '', 5, True, None, 'ünï', 1.5]
 KEYS = ['k', 'env', 'k', 'path', 'a', 'b']
@@ -102,7 +112,14 @@ def gen(rng, tier):
     k = 0
     while True:
         k += 1
-        yield gen_case(rng, bad_types=(k % 6 == 0))
+        c = gen_case(rng, bad_types=(k % 6 == 0))
+        if k % 8 == 0 and c['defs']:
+            # values across the boundary of the modelled float alphabet: judged by the oracle only
+            c['stream'] = 'boundary'
+            for d in c['defs']:
+                if rng.random() < 0.7:
+                    d['expr'] = rng.choice(BOUNDARY_EXPRS)
+        yield c
 
 
 def corpus():
@@ -177,8 +194,17 @@ def static_text(v):
 def canon_call(c):
     op, name, labels, ns, help_, unit, value = c
     lab = sorted([k, canon_label(v)] for k, v in labels.items())
-    val = repr(float(value)) if type(value) in (int, float) else 'not-a-number:' + repr(value)
+    val = '%s:%r' % (type(value).__name__, value) if type(value) in (int, float) else 'not-a-number:' + repr(value)
     return [op, name, lab, ns, help_, unit, val]
+
+
+def num(val):
+    """the number a canonical value stands for (the statement compares values, not Python types)"""
+    kind, _, text = val.partition(':')
+    try:
+        return repr(float(int(text) if kind == 'int' else float(text)))
+    except (ValueError, OverflowError):
+        return val
 
 
 def run_impl(case):
@@ -261,17 +287,31 @@ def ref_env(case):
     return mod.__dict__, {k: X.build_value(v) for k, v in LOCALS}
 
 
+class _Any:
+    def __eq__(self, other):
+        return True
+
+    def __repr__(self):
+        return '<any>'
+
+
+ANY = _Any()
+
+
 def expected_call(d, g, loc):
     value = 1.0
     if d['expr']:
+        v, failed = X.at_line(d['expr'], g, loc)
         try:
-            value = float(eval(d['expr'], dict(g), dict(loc)))
-        except BaseException:  # noqa: B902
+            value = 1.0 if failed else float(v)
+        except Exception:   # noqa: B902
             value = 1.0
     labels = {}
     for l in d['labels']:
         if l['expr']:
-            labels[l['key']] = ['s', X.outcome(l['expr'], g, loc)['text']]
+            o = X.outcome(l['expr'], g, loc)
+            # a value that has no text (its __str__ raises): the statement does not say what the label is
+            labels[l['key']] = ['s', ANY if o['strRaises'] else o['text']]
         else:
             labels[l['key']] = canon_label(l['static'])
     return [d['type'].lower(), d['name'], sorted([k, v] for k, v in labels.items()), d['ns'] or 'deep', d['help'],
@@ -325,6 +365,7 @@ def oracle(case, obs):
         if h.get('other'):
             v.append(f'hit {i}: a metric-only tracepoint produced {h["other"]} snapshot / log effects')
         for j, (got, want) in enumerate(zip(h['calls'], e['calls'])):
+            got = [c[:6] + [num(c[6])] for c in got]          # the statement compares the number, not its Python type
             if got != want:
                 if len(got) != len(want):
                     v.append(f'hit {i}: processor {j} received {len(got)} calls, expected {len(want)} '
@@ -345,6 +386,8 @@ def oracle(case, obs):
 def model_request(case, obs):
     if obs.get('no_action') or any('raised' in h for h in obs['hits']):
         return None
+    if case['stream'] == 'boundary':
+        return None         # values outside the alphabet on which the model's float printing is CPython's: oracle only
     g, loc = ref_env(case)
     exprs = set()
     for d in case['defs']:
@@ -353,7 +396,7 @@ def model_request(case, obs):
         for l in d['labels']:
             if l['expr']:
                 exprs.add(l['expr'])
-    table = [{'e': e, 'o': X.outcome(e, g, loc)} for e in sorted(exprs)]
+    table = [{'e': e, 'o': X.eval_outcome(e, g, loc)} for e in sorted(exprs)]
     cfg = dict(case['cfg'])
     if case['condition'] is not None:
         cfg['condition'] = case['condition']
